@@ -698,7 +698,7 @@ pub fn gen_desc(r: &mut StdRng, o: &GenOpts) -> Desc {
                 };
                 (ElemMode::Active { table, offset, explicit_table: ft.reftypes && r.gen_bool(0.3) }, t.ety)
             }
-            1 => (ElemMode::Passive, if ft.reftypes && r.gen_bool(0.25) { T::ExternRef } else { T::FuncRef }),
+            1 => (ElemMode::Passive, if ft.reftypes && !o.exec_subset && r.gen_bool(0.25) { T::ExternRef } else { T::FuncRef }),
             _ => (ElemMode::Declared, T::FuncRef),
         };
         let funcs_form = ety == T::FuncRef && (!ft.reftypes || r.gen_bool(0.5));
@@ -1140,9 +1140,89 @@ impl<'a> BodyGen<'a> {
         false
     }
 
+    /// a bulk memory / table statement of the Exec.tla subset: (destination, source, count) are small constants or expressions
+    fn exec_bulk_stmt(&mut self, depth: usize) {
+        let tabs = self.candidates(RefClass::TableFunc);
+        let mems = self.candidates(RefClass::Mem32);
+        let elems = self.candidates(RefClass::ElemFunc);
+        let ndata = self.d.data.len() as u32;
+        let multi_t = self.feat().reftypes;
+        let multi_m = self.feat().multi_memory;
+        let pick = |r: &mut StdRng, v: &[u32], multi: bool| if multi { *v.choose(r).unwrap() } else { v[0] };
+        let mut small = |s: &mut Self, hi: i32| {
+            if s.r.gen_bool(0.8) {
+                let v = s.r.gen_range(0..hi);
+                s.out.push(I::I32Const(v));
+            } else {
+                s.expr(T::I32, depth + 1);
+            }
+        };
+        match self.r.gen_range(0..8) {
+            0 | 1 if !tabs.is_empty() && (multi_t || tabs[0] == 0) => {
+                small(self, 6);
+                small(self, 6);
+                small(self, 3);
+                let (a, b) = (pick(self.r, &tabs, multi_t), pick(self.r, &tabs, multi_t));
+                self.out.push(I::TableCopy { src_table: a, dst_table: b });
+            }
+            2 if !tabs.is_empty() && !elems.is_empty() && (multi_t || tabs[0] == 0) => {
+                small(self, 6);
+                small(self, 3);
+                small(self, 3);
+                let (t, e) = (pick(self.r, &tabs, multi_t), *elems.choose(self.r).unwrap());
+                self.out.push(I::TableInit { elem_index: e, table: t });
+            }
+            3 if !elems.is_empty() => {
+                let e = *elems.choose(self.r).unwrap();
+                self.out.push(I::ElemDrop(e));
+            }
+            4 if !mems.is_empty() && (multi_m || mems[0] == 0) => {
+                small(self, 16);
+                small(self, 16);
+                small(self, 6);
+                let (a, b) = (pick(self.r, &mems, multi_m), pick(self.r, &mems, multi_m));
+                self.out.push(I::MemoryCopy { src_mem: a, dst_mem: b });
+            }
+            5 if !mems.is_empty() && (multi_m || mems[0] == 0) => {
+                small(self, 16);
+                small(self, 300);
+                small(self, 6);
+                let m = pick(self.r, &mems, multi_m);
+                self.out.push(I::MemoryFill(m));
+            }
+            6 if !mems.is_empty() && ndata > 0 && (multi_m || mems[0] == 0) => {
+                small(self, 16);
+                small(self, 4);
+                small(self, 4);
+                let m = pick(self.r, &mems, multi_m);
+                let dseg = self.r.gen_range(0..ndata);
+                self.out.push(I::MemoryInit { mem: m, data_index: dseg });
+            }
+            7 if ndata > 0 => {
+                let dseg = self.r.gen_range(0..ndata);
+                self.out.push(I::DataDrop(dseg));
+            }
+            _ => {}
+        }
+    }
+
     fn exec_op(&mut self, depth: usize) {
         // i32 expression of the Exec.tla subset
         let k = self.r.gen_range(0..10);
+        let tabs = self.candidates(RefClass::TableFunc);
+        if k == 9 && self.feat().reftypes && !tabs.is_empty() && self.r.gen_bool(0.5) {
+            let t = *tabs.choose(self.r).unwrap();
+            self.out.push(I::TableSize(t));
+            return;
+        }
+        let mems32 = self.candidates(RefClass::Mem32);
+        if k == 8 && !mems32.is_empty() && self.r.gen_bool(0.25) && (self.feat().multi_memory || mems32[0] == 0) {
+            let m = if self.feat().multi_memory { *mems32.choose(self.r).unwrap() } else { mems32[0] };
+            let delta = self.r.gen_range(0..3);
+            self.out.push(I::I32Const(delta));
+            self.out.push(I::MemoryGrow(m));
+            return;
+        }
         if k < 6 {
             let name = *EXEC_BIN.choose(self.r).unwrap();
             self.expr(T::I32, depth + 1);
@@ -1442,7 +1522,9 @@ impl<'a> BodyGen<'a> {
                 self.out.push(I::GlobalSet(g));
             }
             35..=46 => {
-                if self.o.exec_subset {
+                if self.o.exec_subset && self.feat().bulk && self.r.gen_bool(0.3) {
+                    self.exec_bulk_stmt(depth);
+                } else if self.o.exec_subset {
                     if !self.d.mems.is_empty() {
                         self.expr(T::I32, depth + 1);
                         self.expr(T::I32, depth + 1);
